@@ -209,49 +209,78 @@ class C11(PropertyCheck):
     # ----------------------------------------------------------------------------------
     def _run_batch(self, ctx, res, batch, tag):
         """batch: (specs, durs, method, perm, shuffle).  About a third of the cases are run on a Scheduler object shared with
-        the preceding cases of the same setting (a history of up to 6 calls, pulse output and cycles output alternating);
-        the model is stateless, so each result must be what the model answers for that call alone."""
+        the preceding cases of the same setting (a history of up to 8 calls, pulse output and cycles output alternating); half
+        of those are followed by a case that re-schedules the SAME list of Instruction objects after it was edited in place
+        (instruction replaced / inserted / removed, a duration re-assigned).  The model is stateless, so each result must be
+        what the model answers for the content of the list at that call."""
         rng = ctx.rng
-        lines, impl = [], []
+        lines, impl, cases = [], [], []
         chain = self._chain
-        for specs, durs, method, perm, shuffle in batch:
-            fields = [fields_of(s) + (d,) for s, d in zip(specs, durs)]
-            try:
-                ins = sc.make_instructions(specs, durs)
-                if any(i.duration * sc.DEN != d for i, d in zip(ins, durs)):
-                    raise AssertionError("duration not exact")
-            except AssertionError:
-                raise
-            except Exception as e:      # Instruction() is part of the code under test
-                impl.append(("other:" + type(e).__name__, None, None, None, None))
-                lines.append(sc.model_line(method, perm, fields, None))
-                continue
-            sch, hist = chain.get(method, perm, 2) if rng.random() < 0.35 else (None, None)
+
+        def chained(specs, durs, method, perm, shuffle, sch, hist, store, oid, edits):
             log = sc.ShuffleLog(rng) if shuffle else None
-            st, starts = sc.impl_schedule(ins, method, perm, log, scheduler=sch, random_shuffle=bool(shuffle))
+            c1 = {"kind": "pulse", "ins": specs, "durs": durs, "den": sc.DEN, "shuf": None, "cycles": False,
+                  "obj": oid, "edits": edits}
+            st, starts = sc.run_call(sch, c1, method, perm, store=store, log=log)
             shuf = log.log if log else None
-            if hist is not None:
-                hist.append({"kind": "pulse", "ins": specs, "durs": durs, "den": sc.DEN, "shuf": shuf, "cycles": False})
+            c1["shuf"] = shuf
+            hist.append(c1)
             cyc = None
             if st == "ok":
-                log2 = sc.ShuffleLog(replay=log.log) if log else None
-                st, cyc = sc.impl_schedule(ins, method, perm, log2, scheduler=sch, return_cycles_list=True,
-                                           random_shuffle=bool(shuffle))
-                if hist is not None:
-                    hist.append({"kind": "pulse", "ins": specs, "durs": durs, "den": sc.DEN, "shuf": shuf, "cycles": True})
-            impl.append((st, starts, cyc, shuf, list(hist) if hist is not None else None))
-            lines.append(sc.model_line(method, perm, fields, shuf))
+                c2 = dict(c1, cycles=True, edits=[])
+                st, cyc = sc.run_call(sch, c2, method, perm, store=store)
+                hist.append(c2)
+            return st, starts, cyc, shuf, list(hist)
+
+        for specs, durs, method, perm, shuffle in batch:
+            derived = None
+            if specs and rng.random() < 0.35:
+                sch, hist = chain.get(method, perm, 4)
+                store, oid = chain.objects(method, perm), chain.new_id()
+                r = chained(specs, durs, method, perm, shuffle, sch, hist, store, oid, [])
+                if r[0] == "ok" and rng.random() < 0.5:
+                    N = 1 + max(q for x in specs for q in list(x[1]) + list(x[2]))
+                    if N not in self._pools:
+                        self._pools[N] = sc.placements(N)
+                    edits = sc.random_edits(rng, specs, N, self._pools[N], durs=durs, dur_choices=sorted(set(durs)))
+                    specs2, durs2 = sc.edited_specs(specs, edits, durs)
+                    if specs2 and any(sc.used_of(x) for x in specs2):
+                        derived = (specs2, durs2, chained(specs2, durs2, method, perm, shuffle, sch, hist, store, oid, edits))
+            else:
+                try:
+                    ins = sc.make_instructions(specs, durs)
+                    if any(i.duration * sc.DEN != d for i, d in zip(ins, durs)):
+                        raise AssertionError("duration not exact")
+                except AssertionError:
+                    raise
+                except Exception as e:      # Instruction() is part of the code under test
+                    r = ("other:" + type(e).__name__, None, None, None, None)
+                else:
+                    log = sc.ShuffleLog(rng) if shuffle else None
+                    st, starts = sc.impl_schedule(ins, method, perm, log, random_shuffle=bool(shuffle))
+                    shuf = log.log if log else None
+                    cyc = None
+                    if st == "ok":
+                        log2 = sc.ShuffleLog(replay=log.log) if log else None
+                        st, cyc = sc.impl_schedule(ins, method, perm, log2, return_cycles_list=True, random_shuffle=bool(shuffle))
+                    r = (st, starts, cyc, shuf, None)
+            for sp, du, rr, edited in ((specs, durs, r, False),) + (((derived[0], derived[1], derived[2], True),) if derived else ()):
+                cases.append((sp, du, method, perm, shuffle, edited))
+                impl.append(rr)
+                lines.append(sc.model_line(method, perm, [fields_of(x) + (d,) for x, d in zip(sp, du)], rr[3]))
         outs = ctx.driver("drv_sched").run(lines)
-        for (specs, durs, method, perm, shuffle), o, (st, starts, cyc, shuf, hist) in zip(batch, outs, impl):
+        for (specs, durs, method, perm, shuffle, edited), o, (st, starts, cyc, shuf, hist) in zip(cases, outs, impl):
             used = [sc.used_of(s) for s in specs]
             nontriv = any(used[i] & used[j] for i in range(len(specs)) for j in range(i + 1, len(specs)))
             inp = {"ins": [[s[0], s[1], s[2], d] for s, d in zip(specs, durs)], "method": method, "perm": perm, "shuf": shuf}
             if hist is not None:
-                inp["calls_before_on_this_scheduler"] = [[[g[0], g[1], g[2], d] for g, d in zip(c["ins"], c["durs"])] + [c["cycles"]]
-                                                          for c in hist[:-2]]
+                inp["calls_before_on_this_scheduler"] = [
+                    [[g[0], g[1], g[2], d] for g, d in zip(c["ins"], c["durs"])] + [c["cycles"], c["obj"], c["edits"]]
+                    for c in hist[:-2]]
             res.case(inp, nontrivial=nontriv, tags=[tag, f"len={len(specs)}", f"method={method}", f"perm={int(perm)}",
                                                     f"shuffle={int(bool(shuffle))}",
-                                                    "history=%d" % (0 if hist is None else min(len(hist), 6))])
+                                                    "history=%d" % (0 if hist is None else min(len(hist), 8))]
+                     + (["edited-in-place"] if edited else []))
             if hist is None:
                 w = {"ins": specs, "durs": durs, "den": sc.DEN, "method": method, "perm": perm, "shuf": shuf, "scope": "covered"}
             else:
@@ -278,9 +307,11 @@ class C11(PropertyCheck):
 
     def correspondence(self, ctx, res):
         rng = ctx.rng
-        self._chain = sc.SchedulerChain()
-        res.notes.append("about a third of the cases are calls on a Scheduler object already used for up to 4 earlier calls of "
-                         "the same setting (tag history=k); the model is stateless")
+        self._chain = sc.SchedulerChain(maxlen=8)
+        self._pools = {}
+        res.notes.append("about a third of the cases are calls on a Scheduler object already used for up to 6 earlier calls of "
+                         "the same setting (tag history=k); half of them are followed by a case that re-schedules the same list of "
+                         "Instruction objects after in-place edits (tag edited-in-place); the model is stateless")
         settings = [(m, p) for m in ("ASAP", "ALAP") for p in (True, False)]
         # exhaustive: short lists over a small alphabet with two durations ----------------------
         alpha = [("CNOT", [1], [0]), ("CNOT", [2], [0]), ("CNOT", [2], [1]), ("SNOT", [2], []), ("X", [1], []), ("Z", [0], [])]
@@ -342,7 +373,8 @@ class C11(PropertyCheck):
         method, perm = w["method"], w["perm"]
         sch = Scheduler(method, allow_permutation=perm)
         calls = w["history"]
-        results = [sc.run_call(sch, c, method, perm, gate_of=gate_obj) for c in calls]
+        store = {}
+        results = [sc.run_call(sch, c, method, perm, gate_of=gate_obj, store=store) for c in calls]
         n = len(calls)
         for k, (c, (st, r)) in enumerate(zip(calls, results)):
             if c["kind"] != "pulse" or c.get("cycles") or not c["ins"] or all(not sc.used_of(s) for s in c["ins"]):
@@ -368,8 +400,39 @@ class C11(PropertyCheck):
         """random histories: 2-3 instruction lists of length 2-4 over HIST_POOL with durations in {1, 2, 5}, scheduled one
         after the other on ONE Scheduler object, each as a start-time call followed (mostly) by a cycles call; now and then
         a gate-mode call in between"""
+        placed = [(g[0], list(g[1]), list(g[2])) for g in self.HIST_POOL]
         for _ in range(count):
             calls = []
+            if rng.random() < 0.5:      # ONE list of Instruction objects (or gate list / circuit), edited in place between the calls
+                L = rng.randint(2, 4)
+                specs = specs_from([rng.choice(self.HIST_POOL) for _ in range(L)])
+                if rng.random() < 0.25:
+                    c = {"kind": "gate", "N": 3, "gates": specs, "shuf": None, "repeat": 0, "cycles": True,
+                         "as_circuit": rng.random() < 0.5, "obj": 1, "edits": []}
+                    calls.append(c)
+                    ed = sc.random_edits(rng, specs, 3, placed)
+                    g2 = sc.edited_specs(specs, ed)
+                    if g2:
+                        calls.append(dict(c, gates=g2, edits=ed))
+                    # followed by a pulse-mode call on another object: indices of the stale pairs are reused
+                    d2 = [rng.choice([1, 2, 5]) for _ in g2]
+                    if g2:
+                        calls.append({"kind": "pulse", "ins": g2, "durs": d2, "den": 1, "shuf": None, "cycles": False})
+                else:
+                    durs = [rng.choice([1, 2, 5]) for _ in range(L)]
+                    c = {"kind": "pulse", "ins": specs, "durs": durs, "den": 1, "shuf": None, "cycles": False, "obj": 1, "edits": []}
+                    calls.append(c)
+                    for _ in range(rng.randint(1, 2)):
+                        ed = sc.random_edits(rng, c["ins"], 3, placed, durs=c["durs"], dur_choices=[1, 2, 5])
+                        i2, d2 = sc.edited_specs(c["ins"], ed, c["durs"])
+                        if not i2:
+                            break
+                        c = dict(c, ins=i2, durs=d2, edits=ed)
+                        calls.append(c)
+                        if rng.random() < 0.5:
+                            calls.append(dict(c, cycles=True, edits=[]))
+                yield {"history": calls, "method": rng.choice(["ASAP", "ALAP"]), "perm": True, "scope": "covered"}
+                continue
             for _ in range(rng.randint(2, 3)):
                 L = rng.randint(2, 4)
                 specs = specs_from([rng.choice(self.HIST_POOL) for _ in range(L)])
@@ -495,7 +558,7 @@ class C11(PropertyCheck):
             if f:
                 yield w, d
         # histories: one Scheduler object used for several instruction lists
-        for w in self._history_witnesses(ctx.rng, 300):
+        for w in self._history_witnesses(ctx.rng, 400):
             f, d = self.oracle_replay(ctx, w)
             if f:
                 yield w, d
